@@ -85,7 +85,7 @@ func (w *World) genRoleCell() []byte {
 		}
 		r.Roles = append(r.Roles, role)
 	}
-	h := w.Codec.newHandle()
+	h := w.Codec.newHandleKind(true)
 	h.Roles = r
 	return h.Bytes
 }
@@ -96,7 +96,7 @@ func (w *World) genTokenCell(a *Account, key []byte) []byte {
 		return nil
 	}
 	t := w.GenToken(key[len(TokenPrefix):])
-	h := w.Codec.newHandle()
+	h := w.Codec.newHandleKind(true)
 	h.Tok = t
 	return h.Bytes
 }
